@@ -7,7 +7,7 @@ package gobl
 // ---- C09: a signature is accepted exactly when some supplied key verifies it
 // and the envelope's header contains the header that was signed.
 //
-//@ global ErrValidation != nil && ErrInternal != nil && ErrSignature != nil && ErrUnknownSchema != nil
+//@ global ErrValidation != nil && ErrInternal != nil && ErrSignature != nil && ErrUnknownSchema != nil && ErrDigest != nil && ErrCalculation != nil && ErrNoDocument != nil && ErrMarshal != nil
 //@ pred keysOK(keys []*dsig.PublicKey) bool = forall i int :: 0 <= i && i < len(keys) ==> keys[i] != nil
 //@ pred someKey(sig *dsig.Signature, keys []*dsig.PublicKey) bool = exists i int :: 0 <= i && i < len(keys) && dsig.jwsValid(sig, keys[i])
 //@ pred sigOK(e *Envelope, sig *dsig.Signature, keys []*dsig.PublicKey) bool = (len(keys) > 0 ==> someKey(sig, keys)) && dsig.payloadOK(sig) && head.contains(e.Head, dsig.signedHeader(sig))
@@ -29,10 +29,54 @@ package gobl
 //@   requires e != nil
 //@   ensures r != nil
 //
-//@ func (e *Envelope) Validate() (err)
-//@   trusted X-VALIDATION: a validated envelope has a header, no nil list entries and only real signatures (validation walker; Signature.UnmarshalJSON)
+// ---- C08 / C10: digest and lifecycle
+//
+// $hash: SHA-256 (hex) of the canonical JSON of the document's current logical
+// content. Assumption A-INJ: it is injective on logical content and changes
+// whenever the content changes; every operation that edits the document is
+// declared to modify it.
+//@ ghost schema.Object.$hash string
+//
+//@ pred digestOK(e *Envelope) bool = e.Head != nil && e.Head.Digest != nil && e.Document != nil && e.Head.Digest.Algorithm == "sha256" && e.Head.Digest.Value == e.Document.$hash
+//
+//@ func (e *Envelope) Digest() (d, err)
+//@   trusted X-DIGEST: json.Marshal, c14n.CanonicalJSON and SHA-256 of the document yield its content hash $hash (A-INJ)
 //@   requires e != nil
-//@   ensures err == nil ==> head.wfHeader(e.Head) && sigsOK(e)
+//@   ensures err == nil ==> d != nil && fresh(d) && d.Algorithm == "sha256" && e.Document != nil && d.Value == e.Document.$hash
+//@   ensures err != nil ==> d == nil
+//
+//@ func (e *Envelope) verifyDigest() (err)
+//@   requires e != nil && e.Head != nil && e.Head.Digest != nil
+//@   ensures [match] err == nil ==> digestOK(e)
+//
+//@ func (e *Envelope) ValidateWithContext(ctx) (err)
+//@   requires e != nil
+//@   ensures [digest] err == nil ==> digestOK(e)
+//@   ensures [wf] err == nil ==> head.wfHeader(e.Head) && sigsOK(e)
+//
+//@ func (e *Envelope) Validate() (err)
+//@   requires e != nil
+//@   ensures [digest] err == nil ==> digestOK(e)
+//@   ensures [wf] err == nil ==> head.wfHeader(e.Head) && sigsOK(e)
+//
+//@ func (e *Envelope) calculate() (err)
+//@   requires e != nil && e.Document != nil
+//@   modifies *
+//@   ensures [digest] err == nil ==> digestOK(e)
+//
+//@ func (e *Envelope) Unsign()
+//@   requires e != nil
+//@   modifies Envelope.Signatures
+//@   footprint e
+//@   ensures len(e.Signatures) == 0
+//
+// C10: only valid envelopes with a matching digest can be signed; a failed
+// signing leaves the envelope unsigned.
+//@ func (e *Envelope) Sign(key) (err)
+//@   requires e != nil && key != nil && e.Head != nil
+//@   modifies *
+//@   ensures [valid] err == nil ==> digestOK(e) && len(e.Signatures) >= 1
+//@   ensures [rollback] err != nil ==> len(e.Signatures) == 0
 //
 //@ func (e *Envelope) Signed() (r)
 //@   requires e != nil
